@@ -72,11 +72,12 @@ def on_calendar(spec, vals, obs, info):
     with world.notrace():  # concrete data only (zoneinfo is C code)
         ref = CAL.ref_calendar(spec, info["size"], info["g"])
     fails = O.booked_on_shift(spec, vals, obs, info, ref)
-    for rid, tab in info.get("onshift", {}).items():
-        for i, v in enumerate(tab):
-            if v and not ref[rid][i]:
-                fails.append(f"C02 {rid}: onShift says slot {i} ({spec.start} + {i}*{info['g']} s) is working time, the declared calendar says it is not")
-                break
+    with world.notrace():  # both tables are concrete
+        for rid, tab in info.get("onshift", {}).items():
+            for i, v in enumerate(tab):
+                if v and not ref[rid][i]:
+                    fails.append(f"C02 {rid}: onShift says slot {i} ({spec.start} + {i}*{info['g']} s) is working time, the declared calendar says it is not")
+                    break
     return fails
 
 
@@ -89,7 +90,7 @@ def cells(tier: str) -> dict:
     for kind in KINDS:
         def f(kind=kind):
             s = cal_spec(kind)
-            hi = (30 * H if s.length == "3w" else 20 * H) if s.resolution == 3600 else 8 * H
+            hi = (12 * H if s.length == "3w" else 8 * H) if s.resolution == 3600 else 3 * H
             return Cell(s, {"e0": (60, hi), "e1": (60, hi)}, [on_calendar])
         out[f"cal[{kind}]"] = f
     return out
@@ -100,7 +101,7 @@ META = dict(sxlib.SX_META, functions=["WorkingHours.onShift (Python body; Cython
                                       "ModelBuilder (leaves, vacations, shifts, workinghours)", "TaskScenario.bookResource"],
             bounds="K1: any weekday/minute, <=1 (quick) / 2 (thorough) intervals on each of 2 symbolic weekdays incl. cross-midnight and 24:00; whole-run: 16 calendar kinds "
                    "(own hours, shift, default, global vacation day/range, leave day/range, resource vacation, Asia/Tokyo, America/New_York across both 2025 DST changes, "
-                   "Pacific/Kiritimati, Pacific/Pago_Pago, night shifts, 15-min resolution), 2 chained tasks with efforts 60 s .. 30 h symbolic; every slot of a 3-week horizon "
+                   "Pacific/Kiritimati, Pacific/Pago_Pago, night shifts, 15-min resolution), 2 chained tasks with efforts 60 s .. 12 h symbolic; every slot of a 3-week horizon "
                    "for the onShift table (enumerated, not symbolic). The C implementation of zoneinfo is trusted (used by the oracle as well).")
 
 
